@@ -189,7 +189,7 @@ func genMarkupDoc(r *rand.Rand, tier string) *sx.Node {
 
 // structured builds a document whose meaning the generator knows by construction (an independent
 // oracle): plain chunks, escaped brackets, open / close / close-all markers with properties,
-// nested, overlapping and repeated, multi-byte text; no whitespace at the edges, no colon.
+// nested, overlapping and repeated, multi-byte text; blanks at the edges in a quarter of them; no colon.
 // The case carries (expect text ((name pos len enclosed) ...)).
 func (g *mgen) structured() *sx.Node {
 	chunks := []string{"hello", "wörld", "日本", " ", "a b", "x", "Grr!", "it's", "50%", "é", "𝄞", "end."}
@@ -209,7 +209,14 @@ func (g *mgen) structured() *sx.Node {
 		src.WriteString(t)
 		text = append(text, []rune(t)...)
 	}
-	emit([]string{"Start", "é", "x"}[g.r.Intn(3)])
+	// a quarter of the documents has blanks at its edges, inside or outside the first / last marker:
+	// the text is trimmed and the ranges delimit what is left of the enclosed text
+	edgy := g.r.Intn(4) == 0
+	if !edgy {
+		emit([]string{"Start", "é", "x"}[g.r.Intn(3)])
+	} else if g.r.Intn(2) == 0 {
+		emit([]string{" ", "  ", " x"}[g.r.Intn(3)])
+	}
 	n := 2 + g.r.Intn(10)
 	for i := 0; i < n; i++ {
 		switch x := g.r.Intn(12); {
@@ -249,12 +256,35 @@ func (g *mgen) structured() *sx.Node {
 			src.WriteString("[" + g.ws() + "/" + g.ws() + "]")
 		}
 	}
-	emit([]string{"End", "é.", "!"}[g.r.Intn(3)])
+	if !edgy {
+		emit([]string{"End", "é.", "!"}[g.r.Intn(3)])
+	} else if g.r.Intn(2) == 0 {
+		emit([]string{" ", "  ", "z "}[g.r.Intn(3)])
+	}
+	lead, trail := 0, 0
+	for lead < len(text) && text[lead] == ' ' {
+		lead++
+	}
+	for trail < len(text)-lead && text[len(text)-1-trail] == ' ' {
+		trail++
+	}
+	trimmed := text[lead : len(text)-trail]
+	clamp := func(x int) int {
+		x -= lead
+		if x < 0 {
+			return 0
+		}
+		if x > len(trimmed) {
+			return len(trimmed)
+		}
+		return x
+	}
 	exp := []*sx.Node{}
 	for _, a := range attrs {
-		exp = append(exp, sx.List(sx.Str(a.name), sx.Int(int64(a.pos)), sx.Int(int64(a.len)), sx.Runes(text[a.pos:a.pos+a.len])))
+		st, en := clamp(a.pos), clamp(a.pos+a.len)
+		exp = append(exp, sx.List(sx.Str(a.name), sx.Int(int64(st)), sx.Int(int64(en-st)), sx.Runes(trimmed[st:en])))
 	}
-	return sx.Tag("markup", sx.Str(src.String()), sx.Tag("expect", sx.Runes(text), sx.List(exp...)))
+	return sx.Tag("markup", sx.Str(src.String()), sx.Tag("expect", sx.Runes(trimmed), sx.List(exp...)))
 }
 
 var mkFragments = []string{"[", "]", "/", "=", "\"", "\\", " ", "a", "b1", "é", "12", ".", "5", "true", "[/]", "[a]", "[/a]", "[a/]",
